@@ -49,7 +49,9 @@ def run_family(ctx, name, behaviours, tags, server_flags=None, subcmd="run"):
     # KF-MINVV-AFTER-PULL: TLC evaluates the finding's trigger itself (GCSafe on the response that hands out the
     # vector); what follows from it in the same behaviour is attributed to the finding
     gcunsafe = {v["tid"] for v in viols if v["tag"] == "GCSafe"}
-    for v in sorted(viols, key=lambda v: (v["tid"], v["line"])):
+    attributed_tids = {}
+    # RefEquiv / BuildEquiv first: a Converged violation of the same behaviour follows from them
+    for v in sorted(viols, key=lambda v: (v["tid"], v["line"], v["tag"] == "Converged")):
         if v["tid"] in gcunsafe and v["tag"] in ("GCSafe", "SyncNeverFails", "Converged", "RefEquiv", "BuildEquiv", "BuildNeverFails") \
                 and any(f["id"] == "KF-MINVV-AFTER-PULL" for f in F.open_findings(ctx.prop)):
             ctx.count("attributed_KF-MINVV-AFTER-PULL")
@@ -70,10 +72,16 @@ def run_family(ctx, name, behaviours, tags, server_flags=None, subcmd="run"):
             if n == v["line"]:
                 first = json.loads(line)
                 break
-        kf = F.attribute(ctx.prop, v, evs)
+        kf = F.attribute(ctx.prop, v, evs, first)
+        if kf is None and v["tid"] in attributed_tids and v["tag"] in ("Converged", "RefEquiv", "BuildEquiv", "BuildNeverFails", "SyncNeverFails", "LogReplayable"):
+            # a behaviour whose FIRST disagreement with the reference is explained by a listed finding: once the
+            # structures differ, later operations resolve differently, so what follows in the same behaviour is a
+            # consequence of it
+            kf = attributed_tids[v["tid"]]
         if kf is not None:
             ctx.count("attributed_" + kf["id"])
             ctx.attributed[kf["id"]] = kf["what"]
+            attributed_tids[v["tid"]] = kf
             continue
         out.append({"property": ctx.prop, "tag": v["tag"], "family": name, "behaviour": byid.get(v["tid"]),
                     "server_flags": server_flags or [], "event": first,
@@ -440,7 +448,7 @@ def check_C14(ctx):
         fams.append(dict(name="undo1-" + nm, alphabet=alpha, clients="Seq2", editors=one, feat='{"undo"}', maxundo=6, maxedits=5, maxsyncs=0, weight=1, **extra))
         softfams.append(dict(name="undo1s-" + nm, alphabet=alpha, clients="Seq2", editors=one, feat='{"idle", "undo"}', maxundo=6, maxedits=4, weight=w, **extra))
     # approximate kinds: never fail, never corrupt
-    fams.append(dict(name="undo1-approx", alphabet="OpsApprox", clients="Seq2", editors=one, feat='{"idle", "undo"}', maxundo=6, maxedits=4, weight=4))
+    approx = [dict(name="undo1-approx", alphabet="OpsApprox", clients="Seq2", editors=one, feat='{"idle", "undo"}', maxundo=6, maxedits=4, weight=4)]
     objfams = [f for f in fams if f["name"] in ("undo1-obj", "undo1-nest")]
     fams = [f for f in fams if f not in objfams]
     viols = sim_families(ctx, fams, C14_TAGS, n)
@@ -448,6 +456,8 @@ def check_C14(ctx):
     # re-used identity is known finding KF-UNDO-REUSED-IDENTITY-GC
     viols += sim_families(ctx, objfams, {"UndoExact", "RedoExact", "UndoRedoNeverFails", "CloneEqRoot"}, n)
     viols += sim_families(ctx, softfams, {"UndoRedoNeverFails", "CloneEqRoot", "SyncNeverFails", "LogReplayable"}, n)
+    # approximate kinds (styles, moves, set-by-index): never fail, never corrupt, still sync and converge - no exactness
+    viols += sim_families(ctx, approx, {"UndoRedoNeverFails", "CloneEqRoot", "SyncNeverFails", "LogReplayable", "Converged", "RefEquiv"}, n)
     if ctx.counters.get("undos", 0) == 0:
         raise Infra("vacuous: no undo executed")
     fresh, known = split_known(ctx, viols)
